@@ -46,6 +46,18 @@ OptRec(C, beta, n, m) ==
           ELSE Min({f[s] + C[<<s, T>>] + beta : s \in LastStarts(T, m)})
     IN f
 
+\* The same recursion built left to right as a sequence (entry T+1 holds the optimum of the prefix of length T):
+\* each value is computed once, so it scales to series of a few hundred samples (TLC does not memoise recursive
+\* function definitions).  Lemma OptSeqIsOptRec (Pelt.tla) ties it to OptRec on the small constants.
+RECURSIVE OptSeqFrom(_, _, _, _, _)
+OptSeqFrom(C, beta, n, m, acc) ==
+    LET T == Len(acc) IN          \* acc = <<f[0], ..., f[T-1]>>
+    IF T > n THEN acc
+    ELSE OptSeqFrom(C, beta, n, m,
+                    Append(acc, IF T < m THEN 0
+                                ELSE Min({acc[s + 1] + C[<<s, T>>] + beta : s \in LastStarts(T, m)})))
+OptSeq(C, beta, n, m) == OptSeqFrom(C, beta, n, m, <<0 - beta>>)
+
 \* The split inequality under which the property quantifies over user-defined costs
 SplitNeverIncreases(C, n) ==
     \A iv \in Intervals(n) : \A k \in (iv[1] + 1)..(iv[2] - 1) :
